@@ -44,6 +44,23 @@ def _viol(rec, clause, msgs):
         rec.violation(clause, m)
 
 
+def chunk_api_msgs(t, vals, chunk, start, raw_ts):
+    """the array-like interface of a chunk object (iteration, integer index, part slice) against the model values at
+    channel positions start .."""
+    from props.C04 import slice_vals
+    n = len(chunk)
+    if n == 0:
+        return []
+    out = []
+    items = list(iter(chunk))
+    idx = list(range(start, start + len(items)))
+    out += compare_scalars(t, vals, items, idx, 'iteration over chunk at offset %d' % start, raw_ts)
+    out += compare_scalars(t, vals, [chunk[0], chunk[-1]], [start, start + n - 1], 'chunk[0] / chunk[-1] at offset %d' % start, raw_ts)
+    if n >= 2:
+        out += compare_values(t, slice_vals(t, vals, slice(start + 1, start + n)), chunk[1:], 'chunk[1:] at offset %d' % start, raw_ts)
+    return out[:1]
+
+
 def check_channel_paths(rec, ex, tf_eager, tf_lazy, raw_ts, max_index=40):
     for p in ex.channel_paths():
         eo = ex.objects[p]
@@ -113,6 +130,7 @@ def check_channel_paths(rec, ex, tf_eager, tf_lazy, raw_ts, max_index=40):
                     d = chunk[:]
                     if len(d) != len(chunk):
                         bad.append('len(chunk)=%d but chunk[:] has %d values' % (len(chunk), len(d)))
+                    bad.extend(chunk_api_msgs(t, vals, chunk, running, raw_ts))
                     parts.append(d)
                     running += len(d)
                 return parts, bad
@@ -220,11 +238,14 @@ def check(case, rec):
     rec.nontrivial(_nontrivial(ex))
     rec.label(*S.spec_classes(fs))
     rec.label('memmap' if case['memmap'] else 'in_memory', 'raw_ts' if raw_ts else 'datetime64',
-              'path' if case['as_path'] else 'stream')
+              ('pathlib.Path' if case['as_path'] == 'pathlib' else 'path') if case['as_path'] else 'stream')
     with scratch_file(data, as_path=case['as_path']) as (src, tmpdir):
         mm = tmpdir if case['memmap'] else None
 
         def source():
+            if case['as_path'] == 'pathlib':
+                import pathlib
+                return pathlib.Path(src)            # documented: "a string or pathlib.Path, or an already opened file"
             return src if case['as_path'] else io.BytesIO(data)
         ok, tf_e = rec.guard('read', lambda: TdmsFile.read(source(), raw_timestamps=raw_ts, memmap_dir=mm))
         if not ok:
@@ -499,7 +520,7 @@ def daqmx_cases(draw):
 def cases(draw, **kw):
     fs = draw(S.file_spec(**kw))
     return {'fs': fs, 'memmap': draw(st.integers(0, 3)) == 0, 'raw_ts': draw(st.booleans()),
-            'as_path': draw(st.integers(0, 3)) == 0}
+            'as_path': draw(st.sampled_from([False, False, False, True, 'pathlib']))}
 
 
 def sensor_scaled_cases():
